@@ -15,7 +15,7 @@ REAL = ['py4hw.logic.bitwise / relational blocks', 'py4hw simulator']
 STUB = ['stimulus']
 ASSUMPTIONS = ['PriorityEncoder: inc_priority=True means the highest index wins (unit test + in-code comment; the docstring says the opposite)',
                'gates at equal operand/result widths']
-PROBES = ['output_toggled', 'settled_by_clk0', 'block_added_after_simulator', 'constant_reassigned', 'stimuli_from_listener'] + ['kind_' + k.name for k in kinds_with(tag='c08')]
+PROBES = ['beyond_usual_sizes', 'wider_than_64_bits', 'more_than_64_ports', 'output_toggled', 'settled_by_clk0', 'block_added_after_simulator', 'constant_reassigned', 'stimuli_from_listener'] + ['kind_' + k.name for k in kinds_with(tag='c08')]
 gen = bc.make_gen('c08')
 run = bc.run
 shrink = bc.shrink
